@@ -14,6 +14,7 @@ def free_text(eng, name, n):
     ch = [z3.Int(f'{name}_{i}') for i in range(n)]
     for c in ch:
         eng.assume(z3.Or([c == a for a in ALPHABET]))
+        eng.declare_domain(c, ALPHABET)
     return SStr(ch) if ch else ''
 
 
@@ -30,6 +31,7 @@ class DealCodec:
                 ch = [z3.Int(f'{tag}_tok{p}_{j}') for j in range(16)]
                 for c in ch:
                     eng.assume(z3.Or([c == a for a in PBN_DEAL_ALPHA]))
+                    eng.declare_domain(c, PBN_DEAL_ALPHA)
                 self.tokens[p] = SStr(ch)
                 self.hands[p] = Opaque('hand', (tag, p))
             else:
